@@ -470,7 +470,10 @@ def instantiate_repo(ex, info, args, kwargs, node):
     tc = getattr(ex, 'top_contract', None)
     if info.name in OPAQUE_REPO_CLASSES or (tc is not None and info.name in tc.opaque):
         ex.used_assumptions.add(f'A-CIMOBJ: {info.name}(...) construction does not raise for these arguments (opaque object)')
-        return VOpaque(z3.Const(ex.fresh_name(info.name.lower()), RefSort), info.name)
+        o = VOpaque(z3.Const(ex.fresh_name(info.name.lower()), RefSort), info.name)
+        if not args and not kwargs:
+            o.empty_new = True      # e.g. NocaseDict(): see StmtMixin.apply_declared_kind
+        return o
     return None
 
 
@@ -509,6 +512,9 @@ def str_repeat(ex, a, b, node):
     n = ex.flat(b, 'int')
     r = z3.String(ex.fresh_name('srep'))
     ex.assume(z3.Length(r) == z3.Length(a.t) * z3.If(n < 0, 0, n))
+    ca = a.concrete()
+    if ca is not None and len(ca) == 1:
+        ex.assume(z3.InRe(r, z3.Star(z3.Re(ca))))     # c * n consists of c's only
     return VStr(r)
 
 
@@ -653,6 +659,11 @@ def call_builtin(ex, fn, args, kwargs, node):
     name = fn.name
     f = BUILTINS.get(name)
     if f is None:
+        tc = getattr(ex, 'top_contract', None)
+        c = tc.callees.get(name) if tc is not None else None      # key = dotted external name, e.g. 'datetime.datetime'
+        if c is not None and getattr(c, 'sig', None):
+            from .calls import ext_funcinfo
+            return ex.apply_contract(c, ext_funcinfo(ex, c), list(args), kwargs, node)
         # logging / warnings are no-ops (A-LOG)
         last = name.split('.')[-1]
         if name.startswith('warnings.') or name.startswith('logging.') and last in ('debug', 'info', 'warning', 'error'):
@@ -677,6 +688,8 @@ def _len(ex, fn, args, kw, node):
             return VInt(0) if c.seq is None else VInt(z3.Length(c.seq))
         if isinstance(c, DictCell):
             return VInt(len(c.items))
+        if isinstance(c, MapCell) and c.order is not None:
+            return VInt(z3.Length(c.order))
         if isinstance(c, MapCell):
             n = z3.Int(ex.fresh_name('card'))
             ex.assume(n >= 0)
@@ -1400,6 +1413,10 @@ def _replace(ex, fn, args, kw, node):
                 ex.assume(z3.Implies(z3.Not(z3.Contains(s.t, z3.StringVal(ch))), z3.Not(z3.Contains(r, z3.StringVal(ch)))))
         if len(cb) == 1:
             ex.assume(z3.Length(r) == z3.Length(s.t))
+            # every character of s.replace(c, t) is t or a character of s other than c: instance for digit strings
+            D = z3.Range('0', '9')
+            ex.assume(z3.Implies(z3.InRe(s.t, z3.Star(z3.Union(D, z3.Re(ca)))),
+                                 z3.InRe(r, z3.Star(z3.Union(D, z3.Re(cb))))))
         return VStr(r)
     ex.used_assumptions.add('A-BUILTIN: str.replace on symbolic text is an opaque string')
     return VStr(r)
@@ -1428,7 +1445,7 @@ def _split(ex, fn, args, kw, node):
     return ex.alloc(ListCell(r, 'str'))
 
 
-@builtin('str.find', 'str.rfind', 'str.index')
+@builtin('str.find', 'str.rfind', 'str.index', 'str.rindex')
 def _find(ex, fn, args, kw, node):
     s_ = fn.self_val
     a = args[0]
@@ -1467,6 +1484,9 @@ def _find(ex, fn, args, kw, node):
     ex.assume((r == -1) == z3.Not(z3.Contains(base, a.t)))
     ex.assume(z3.Implies(r >= 0, z3.SubString(base, r, la) == a.t))
     ex.assume(z3.Implies(r >= 0, z3.Not(z3.Contains(z3.SubString(base, r + 1, z3.Length(base)), a.t))))
+    if which == 'rindex':
+        ex.may_raise(r < 0, 'ValueError', node)
+        return VInt(r + off)
     return VInt(z3.If(r < 0, r, r + off))
 
 
